@@ -143,33 +143,35 @@ def witnesses : List (String × Prog) :=
    ("returns_none", w_returns_none)]
 
 
-/-! ## refinement on disciplined positioning / writing programs -/
+/-! ## refinement -/
 
-/-- calls covered by the proved refinement: everything except the read-type calls; `whence ∈ {0,1,2}` -/
-def WOp : FOp → Prop
-  | .write _ | .tell | .flush | .truncate _ | .close => True
+/-- calls covered by the proved refinement: every call the property names; `whence ∈ {0,1,2}` -/
+def Covered : FOp → Prop
   | .seek _ wh => wh ≤ 2
-  | _ => False
+  | _ => True
 
-/-- simulation relation between the SFTPFile model and the local-file spec (files not opened in append mode;
-    no read-ahead, because no read-type call has been made) -/
+/-- Simulation relation between the SFTPFile model (client buffers + server file and handle) and the
+    local-file spec.  The spec file is the server file with the not-yet-flushed write buffer applied at the
+    caller's position (at the end, in append mode); the read-ahead buffer is a true slice of the server file. -/
 structure Rel (f : BF Srv) (p : PF) : Prop where
   closed : p.closed = f.closed
+  rd : p.rd = f.rd
   wr : p.wr = f.wr
-  papp : p.app = false
-  app : f.app = false
-  sapp : f.s.append = false
-  coh : Coherent f.s
-  clean : f.s.didRead = false ∧ f.s.stale = false
-  rbuf : f.rbuf = []
-  pos0 : 0 ≤ f.pos
-  rp : f.realpos = f.pos
+  app : p.app = f.app
+  w : WPre f
+  nstale : f.s.stale = false
   bs : 1 ≤ f.bufsize
+  dflt : 1 ≤ f.dflt
   unbuf : f.buffered = false → f.wbuf = []
   dead : f.closed = true → p.content = f.s.content ∧ f.s.hopen = false ∧ f.wbuf = []
   hopen : f.closed = false → f.s.hopen = true
-  content : f.closed = false → p.content = overlay f.s.content f.pos.toNat f.wbuf
-  ppos : f.closed = false → (p.pos : Int) = f.pos + f.wbuf.length
+  rbufOK : f.rbuf = (f.s.content.drop f.pos.toNat).take f.rbuf.length
+  content : f.closed = false →
+    p.content = (if f.app = true then f.s.content ++ f.wbuf else overlay f.s.content f.pos.toNat f.wbuf)
+  ppos : f.closed = false →
+    (p.pos : Int) = (if f.wbuf = [] then f.pos
+                     else if f.app = true then ((f.s.content.length + f.wbuf.length : Nat) : Int)
+                     else f.pos + f.wbuf.length)
 
 /-- what one step of the refinement proof establishes -/
 def StepOK (o : Ops Srv) (f : BF Srv) (p : PF) (op : FOp) : Prop :=
@@ -181,6 +183,391 @@ private theorem t_nil {b : Bool} {x : Tag} (h : (if b then [x] else ([] : List T
 private theorem sameOut_err (op : FOp) (e : Err) : sameOut op (.err e) PyFile.E = true := by
   cases op <;> simp [sameOut, eraseErr, eraseRet, PyFile.E]
 
+/-- with an empty write buffer the spec file IS the server file and the positions coincide -/
+private theorem rel_wnil_facts {f : BF Srv} {p : PF} (r : Rel f p) (hc : f.closed = false) (hw : f.wbuf = []) :
+    p.content = f.s.content ∧ (p.pos : Int) = f.pos := by
+  have h1 := r.content hc
+  have h2 := r.ppos hc
+  rw [hw] at h1 h2
+  refine ⟨?_, by simpa using h2⟩
+  by_cases ha : f.app = true
+  · rw [if_pos ha] at h1; simpa using h1
+  · rw [if_neg ha, overlay_nil] at h1; exact h1
+
+private theorem rel_setw {f : BF Srv} {p : PF} (r : Rel f p) (hw : f.wbuf = []) : Rel { f with wbuf := [] } p :=
+  { closed := r.closed, rd := r.rd, wr := r.wr, app := r.app,
+    w := ⟨r.w.pos0, r.w.rp, r.w.coh, r.w.sapp, r.w.asize⟩,
+    nstale := r.nstale, bs := r.bs, dflt := r.dflt, unbuf := fun _ => rfl,
+    dead := fun h => ⟨(r.dead h).1, (r.dead h).2.1, rfl⟩, hopen := r.hopen, rbufOK := r.rbufOK,
+    content := fun h => (by have := r.content h; rw [hw] at this; exact this),
+    ppos := fun h => (by have := r.ppos h; rw [hw] at this; exact this) }
+
+/-- the state after writing out `data` (a non-empty prefix situation is handled by the callers): generic
+    constructor of the relation from the facts `writeAll_sftp` provides -/
+private theorem rel_after_writeAll (maxReq : Nat) (hm : 1 ≤ maxReq) (f : BF Srv) (p : PF) (data keep : Bytes)
+    (r : Rel f p) (hc : f.closed = false) (hne : data ≠ []) (hfw : f.wbuf = data ++ keep)
+    (hk : keep ≠ [] → f.buffered = true) :
+    (writeAll (sftpOps maxReq) f data).2 = .ok () ∧
+    Rel { (writeAll (sftpOps maxReq) f data).1 with wbuf := keep } p ∧
+    (writeAll (sftpOps maxReq) f data).1.closed = false ∧
+    (writeAll (sftpOps maxReq) f data).1.s.truncZero = f.s.truncZero ∧
+    (writeAll (sftpOps maxReq) f data).1.s.didRead = f.s.didRead := by
+  obtain ⟨h1, h2, h3, h4, h5, h6, h7, h8, h9⟩ := writeAll_sftp maxReq hm f data r.w hne
+  obtain ⟨c1, c2, c3, c4, c5, c6, c7, c8, c9, c10⟩ := h9
+  obtain ⟨s1, s2, s3, s4, s5⟩ := h8
+  have hcl : (writeAll (sftpOps maxReq) f data).1.closed = false := by rw [c10]; exact hc
+  have hwne : f.wbuf ≠ [] := by rw [hfw]; simp [hne]
+  have hcont := r.content hc
+  have hpos := r.ppos hc
+  rw [if_neg hwne] at hpos
+  have hp0 := r.w.pos0
+  refine ⟨h1, ?_, hcl, s3, s4⟩
+  exact {
+    closed := (by simp only; rw [c10]; exact r.closed)
+    rd := (by simp only; rw [c1]; exact r.rd)
+    wr := (by simp only; rw [c2]; exact r.wr)
+    app := (by simp only; rw [c3]; exact r.app)
+    w := ⟨(by simp only; rw [h3]; split <;> omega), (by simp only; rw [h4, h5]; simp),
+          h7, (by simp only; rw [s1, c3]; exact r.w.sapp),
+          (by
+            intro ha
+            simp only at ha ⊢
+            rw [c3] at ha
+            rw [h6 ha, h2, if_pos ha, List.length_append])⟩
+    nstale := (by simp only; rw [s5]; exact r.nstale)
+    bs := (by simp only; rw [c7]; exact r.bs)
+    dflt := (by simp only; rw [c8]; exact r.dflt)
+    unbuf := fun hb => (by
+      simp only at hb ⊢
+      rw [c5] at hb
+      by_cases hk0 : keep = []
+      · exact hk0
+      · rw [hk hk0] at hb; cases hb)
+    dead := fun h => (by simp only at h; rw [hcl] at h; cases h)
+    hopen := fun _ => (by simp only; rw [s2]; exact r.hopen hc)
+    rbufOK := (by simp only; rw [h5]; simp)
+    content := fun _ => (by
+      simp only
+      rw [c3, h2, hcont, hfw]
+      by_cases ha : f.app = true
+      · simp only [ha, if_true, List.append_assoc]
+      · simp only [ha, Bool.false_eq_true, if_false]
+        rw [h3, if_neg ha]
+        have : (f.pos + (data.length : Int)).toNat = f.pos.toNat + data.length := by omega
+        rw [this, overlay_append])
+    ppos := fun _ => (by
+      simp only
+      rw [c3, h3, h2, hpos, hfw]
+      by_cases ha : f.app = true
+      · simp only [ha, if_true, List.length_append]
+        split
+        · rename_i hk0; rw [hk0]; simp
+        · push_cast; omega
+      · simp only [ha, Bool.false_eq_true, if_false, List.length_append]
+        split
+        · rename_i hk0; rw [hk0]; simp
+        · push_cast; omega) }
+
+/-- flushing keeps the relation (the spec state does not move) -/
+private theorem rel_after_flush (maxReq : Nat) (hm : 1 ≤ maxReq) (f : BF Srv) (p : PF) (r : Rel f p)
+    (hc : f.closed = false) :
+    (BufFile.flush (sftpOps maxReq) f).2 = .ok () ∧ Rel (BufFile.flush (sftpOps maxReq) f).1 p ∧
+    (BufFile.flush (sftpOps maxReq) f).1.wbuf = [] ∧ (BufFile.flush (sftpOps maxReq) f).1.closed = false ∧
+    (BufFile.flush (sftpOps maxReq) f).1.s.truncZero = f.s.truncZero ∧
+    (BufFile.flush (sftpOps maxReq) f).1.s.didRead = f.s.didRead := by
+  by_cases hw : f.wbuf = []
+  · rw [flush_nil _ f hw]
+    exact ⟨rfl, rel_setw r hw, rfl, hc, rfl, rfl⟩
+  · obtain ⟨k1, k2, k3, k4, k5⟩ := rel_after_writeAll maxReq hm f p f.wbuf [] r hc hw (by simp) (fun h => absurd rfl h)
+    unfold BufFile.flush
+    rcases hres : writeAll (sftpOps maxReq) f f.wbuf with ⟨f1, r1⟩
+    rw [hres] at k1 k2 k3 k4 k5
+    simp only at k1 k2 k3 k4 k5
+    subst k1
+    exact ⟨rfl, k2, rfl, k3, k4, k5⟩
+
+/-! ### read-type calls -/
+
+private theorem pend_eq (maxReq : Nat) (hm : 1 ≤ maxReq) {f : BF Srv} {p : PF} (r : Rel f p) :
+    pendG (sftpLaws maxReq hm) f = f.s.content.drop f.pos.toNat := by
+  show f.rbuf ++ f.s.content.drop f.realpos.toNat = _
+  have h1 := r.rbufOK
+  have h2 : f.realpos.toNat = f.pos.toNat + f.rbuf.length := by
+    have := r.w.rp; have := r.w.pos0; omega
+  rw [h2, ← List.drop_drop]
+  conv => lhs; lhs; rw [h1]
+  exact List.take_append_drop _ _
+
+private theorem rel_readpre (maxReq : Nat) (hm : 1 ≤ maxReq) {f : BF Srv} {p : PF} (r : Rel f p)
+    (hc : f.closed = false) (hr : f.rd = true) (hw : f.wbuf = []) : ReadPre (sftpLaws maxReq hm) f :=
+  { ok := ⟨by have := r.w.rp; have := r.w.pos0; omega, r.w.coh, r.nstale⟩,
+    rp := r.w.rp, dflt := r.dflt, bs := r.bs, live := hc, rd := hr, wnil := hw }
+
+/-- a read-type call that handed `out` to the caller moves both sides by `out.length` and nothing else -/
+private theorem rel_after_read (maxReq : Nat) (hm : 1 ≤ maxReq) {f f' : BF Srv} {p : PF} {out : Bytes}
+    (r : Rel f p) (hc : f.closed = false) (hw : f.wbuf = [])
+    (h : ReadPost (sftpLaws maxReq hm) f f' out) : Rel f' { p with pos := p.pos + out.length } := by
+  obtain ⟨c1, c2, c3, c4, c5, c6, c7, c8, c9, c10, c11⟩ := h.cli
+  obtain ⟨e1, e2, e3, e4, e5⟩ := h.fr
+  obtain ⟨k0, kc, ks⟩ := h.ok
+  obtain ⟨hcont, hpos⟩ := rel_wnil_facts r hc hw
+  have hcl : f'.closed = false := by rw [c11]; exact hc
+  have hw' : f'.wbuf = [] := by rw [c9]; exact hw
+  have hp0 := r.w.pos0
+  have hpend := h.pend
+  have hpe : pendG (sftpLaws maxReq hm) f = f.s.content.drop f.pos.toNat := pend_eq maxReq hm r
+  -- the new read-ahead is a slice of the (unchanged) server file at the new position
+  have hrest : f'.rbuf ++ f'.s.content.drop f'.realpos.toNat = f.s.content.drop (f.pos.toNat + out.length) := by
+    have h1 : out ++ (f'.rbuf ++ f'.s.content.drop f'.realpos.toNat) = f.s.content.drop f.pos.toNat := by
+      rw [← hpe, ← hpend]; rfl
+    have h2 := congrArg (List.drop out.length) h1
+    rw [List.drop_append_of_le_length (Nat.le_refl _), List.drop_length, List.nil_append, List.drop_drop] at h2
+    rw [h2]
+  have hpos' : f'.pos.toNat = f.pos.toNat + out.length := by rw [h.pos]; omega
+  exact {
+    closed := (by simp only; rw [c11]; exact r.closed)
+    rd := (by simp only; rw [c1]; exact r.rd)
+    wr := (by simp only; rw [c2]; exact r.wr)
+    app := (by simp only; rw [c3]; exact r.app)
+    w := ⟨by rw [h.pos]; omega, h.rp, kc, by rw [e2, c3]; exact r.w.sapp,
+          fun ha => by rw [c10, e1]; exact r.w.asize (by rw [← c3]; exact ha)⟩
+    nstale := ks
+    bs := (by rw [c7]; exact r.bs)
+    dflt := (by rw [c8]; exact r.dflt)
+    unbuf := fun _ => hw'
+    dead := fun hh => (by rw [hcl] at hh; cases hh)
+    hopen := fun _ => (by rw [e3]; exact r.hopen hc)
+    rbufOK := (by
+      rw [e1, hpos', ← hrest, List.take_append_of_le_length (Nat.le_refl _), List.take_length])
+    content := fun _ => (by
+      simp only
+      rw [hw', c3, e1, hcont]
+      split
+      · simp
+      · rw [overlay_nil])
+    ppos := fun _ => (by
+      simp only
+      rw [if_pos hw', h.pos]; push_cast; omega) }
+
+private theorem sync_rel (maxReq : Nat) (hm : 1 ≤ maxReq) (f : BF Srv) (p : PF) (r : Rel f p) (hc : f.closed = false) :
+    ∃ g, syncForRead (sftpOps maxReq) f = (g, .ok ()) ∧ Rel g p ∧ g.wbuf = [] ∧ g.closed = false ∧ g.rd = f.rd := by
+  by_cases hw : f.wbuf = []
+  · exact ⟨f, by simp [syncForRead, hw], r, hw, hc, rfl⟩
+  · obtain ⟨g1, g2, g3, g4, _, _⟩ := rel_after_flush maxReq hm f p r hc
+    have hs : syncForRead (sftpOps maxReq) f = BufFile.flush (sftpOps maxReq) f := by
+      have : f.wbuf.isEmpty = false := by simpa using hw
+      simp [syncForRead, this, sftpOps]
+    rcases hres : BufFile.flush (sftpOps maxReq) f with ⟨f1, r1⟩
+    rw [hres] at g1 g2 g3 g4
+    simp only at g1 g2 g3 g4
+    subst g1
+    refine ⟨f1, by rw [hs, hres], g2, g3, g4, ?_⟩
+    rw [← g2.rd, r.rd]
+
+private theorem read_after_sync {o : Ops Srv} (f g : BF Srv) (size : Option Nat)
+    (hc : f.closed = false) (hr : f.rd = true) (hs : syncForRead o f = (g, .ok ()))
+    (hgc : g.closed = false) (hgr : g.rd = true) (hgw : g.wbuf = []) :
+    BufFile.read o f size = BufFile.read o g size := by
+  unfold BufFile.read
+  rw [if_neg (by simp [hc]), if_neg (by simp [hr]), if_neg (by simp [hgc]), if_neg (by simp [hgr]), hs,
+    syncForRead_wnil g hgw]
+
+private theorem readline_after_sync {o : Ops Srv} (f g : BF Srv) (size : Option Nat)
+    (hc : f.closed = false) (hr : f.rd = true) (hs : syncForRead o f = (g, .ok ()))
+    (hgc : g.closed = false) (hgr : g.rd = true) (hgw : g.wbuf = []) :
+    BufFile.readline o f size = BufFile.readline o g size := by
+  unfold BufFile.readline
+  rw [if_neg (by simp [hc]), if_neg (by simp [hr]), if_neg (by simp [hgc]), if_neg (by simp [hgr]), hs,
+    syncForRead_wnil g hgw]
+
+private theorem spec_rest {f : BF Srv} {p : PF} (maxReq : Nat) (hm : 1 ≤ maxReq) (r : Rel f p)
+    (hc : f.closed = false) (hw : f.wbuf = []) :
+    p.content.drop p.pos = pendG (sftpLaws maxReq hm) f := by
+  obtain ⟨h1, h2⟩ := rel_wnil_facts r hc hw
+  rw [pend_eq maxReq hm r, h1]
+  congr 1
+  have := r.w.pos0; omega
+
+private theorem step_read (maxReq : Nat) (hm : 1 ≤ maxReq) (f : BF Srv) (p : PF) (n : Option Nat) (r : Rel f p) :
+    StepOK (sftpOps maxReq) f p (.read n) := by
+  simp only [StepOK, sstep, pstep]
+  by_cases hc : f.closed = true
+  · have hpc : p.closed = true := by rw [r.closed, hc]
+    unfold BufFile.read
+    simp only [hc, hpc, if_true, Bool.true_or, outOf]
+    exact ⟨r, sameOut_err _ _⟩
+  have hc' : f.closed = false := by simpa using hc
+  have hpc : p.closed = false := by rw [r.closed, hc']
+  by_cases hr : f.rd = false
+  · have hpr : p.rd = false := by rw [r.rd, hr]
+    unfold BufFile.read
+    simp only [hc', hr, hpc, hpr, Bool.false_eq_true, if_false, Bool.not_false, if_true, Bool.false_or, outOf]
+    exact ⟨r, sameOut_err _ _⟩
+  have hr' : f.rd = true := by simpa using hr
+  have hpr : p.rd = true := by rw [r.rd, hr']
+  obtain ⟨g, hs, rg, gw, gc, grd⟩ := sync_rel maxReq hm f p r hc'
+  have hgr : g.rd = true := by rw [grd]; exact hr'
+  rw [read_after_sync f g n hc' hr' hs gc hgr gw]
+  have pre := rel_readpre maxReq hm rg gc hgr gw
+  have hrest := spec_rest maxReq hm rg gc gw
+  rw [if_neg (by simp [hpc, hpr])]
+  cases n with
+  | none =>
+    obtain ⟨h1, h2, _⟩ := read_none_gen (sftpLaws maxReq hm) g pre
+    rcases hres : BufFile.read (sftpOps maxReq) g none with ⟨f1, r1⟩
+    rw [hres] at h1 h2
+    simp only at h1 h2
+    subst h1
+    simp only [outOf, hrest]
+    exact ⟨rel_after_read maxReq hm rg gc gw h2, by simp [sameOut, eraseRet, eraseErr]⟩
+  | some k =>
+    obtain ⟨h1, h2⟩ := read_some_gen (sftpLaws maxReq hm) g k pre
+    rcases hres : BufFile.read (sftpOps maxReq) g (some k) with ⟨f1, r1⟩
+    rw [hres] at h1 h2
+    simp only at h1 h2
+    subst h1
+    simp only [outOf, hrest]
+    exact ⟨rel_after_read maxReq hm rg gc gw h2, by simp [sameOut, eraseRet, eraseErr]⟩
+
+
+private theorem step_readline (maxReq : Nat) (hm : 1 ≤ maxReq) (f : BF Srv) (p : PF) (n : Option Nat) (r : Rel f p)
+    (ht : triggers (sftpOps maxReq) f (.readline n) = []) : StepOK (sftpOps maxReq) f p (.readline n) := by
+  simp only [StepOK, sstep, pstep]
+  by_cases h0 : n = some 0
+  · subst h0
+    simp only [triggers] at ht
+    have hlive := t_nil ht
+    have hc' : f.closed = false := by
+      cases hcc : f.closed <;> simp_all
+    have hr' : f.rd = true := by
+      cases hrr : f.rd <;> simp_all
+    obtain ⟨g, hs, rg, gw, gc, grd⟩ := sync_rel maxReq hm f p r hc'
+    have hgr : g.rd = true := by rw [grd]; exact hr'
+    rw [readline_after_sync f g (some 0) hc' hr' hs gc hgr gw]
+    have pre := rel_readpre maxReq hm rg gc hgr gw
+    obtain ⟨h1, h2⟩ := readline_gen (sftpLaws maxReq hm) g (some 0) pre
+    have hz : specLine (some 0) (pendG (sftpLaws maxReq hm) g) = [] := by simp [specLine, lineOf]
+    rw [hz] at h1 h2
+    rcases hres : BufFile.readline (sftpOps maxReq) g (some 0) with ⟨f1, r1⟩
+    rw [hres] at h1 h2
+    simp only at h1 h2
+    subst h1
+    simp only [beq_self_eq_true, if_true, outOf]
+    exact ⟨by simpa using rel_after_read maxReq hm rg gc gw h2, by simp [sameOut, eraseRet, eraseErr]⟩
+  · have hn0 : (n == some 0) = false := by simpa using h0
+    simp only [hn0, Bool.false_eq_true, if_false]
+    by_cases hc : f.closed = true
+    · have hpc : p.closed = true := by rw [r.closed, hc]
+      unfold BufFile.readline
+      simp only [hc, hpc, if_true, Bool.true_or, outOf]
+      exact ⟨r, sameOut_err _ _⟩
+    have hc' : f.closed = false := by simpa using hc
+    have hpc : p.closed = false := by rw [r.closed, hc']
+    by_cases hr : f.rd = false
+    · have hpr : p.rd = false := by rw [r.rd, hr]
+      unfold BufFile.readline
+      simp only [hc', hr, hpc, hpr, Bool.false_eq_true, if_false, Bool.not_false, if_true, Bool.false_or, outOf]
+      exact ⟨r, sameOut_err _ _⟩
+    have hr' : f.rd = true := by simpa using hr
+    have hpr : p.rd = true := by rw [r.rd, hr']
+    obtain ⟨g, hs, rg, gw, gc, grd⟩ := sync_rel maxReq hm f p r hc'
+    have hgr : g.rd = true := by rw [grd]; exact hr'
+    rw [readline_after_sync f g n hc' hr' hs gc hgr gw]
+    have pre := rel_readpre maxReq hm rg gc hgr gw
+    have hrest := spec_rest maxReq hm rg gc gw
+    rw [if_neg (by simp [hpc, hpr])]
+    obtain ⟨h1, h2⟩ := readline_gen (sftpLaws maxReq hm) g n pre
+    rcases hres : BufFile.readline (sftpOps maxReq) g n with ⟨f1, r1⟩
+    rw [hres] at h1 h2
+    simp only at h1 h2
+    subst h1
+    simp only [outOf]
+    rw [hrest]
+    exact ⟨rel_after_read maxReq hm rg gc gw h2, by simp [sameOut, eraseRet, eraseErr]⟩
+
+private theorem splitLines_of_LinesOf {P : Bytes} {ls : List Bytes} (h : LinesOf P ls []) :
+    ∀ k, P.length ≤ k → splitLines k P = ls := by
+  generalize hq : ([] : Bytes) = q at h
+  induction h with
+  | nil p =>
+    subst hq
+    intro k _
+    cases k <;> simp [splitLines]
+  | cons p l ls p' hl hne _ ih =>
+    intro k hk
+    have hpne : p ≠ [] := by
+      intro hp; subst hp; exact hne (by rw [hl]; rfl)
+    have hplen : 0 < p.length := List.length_pos_iff.2 hpne
+    cases k with
+    | zero => omega
+    | succ k =>
+      have he : p.isEmpty = false := by simpa using hpne
+      have hll : 0 < l.length := List.length_pos_iff.2 hne
+      simp only [splitLines, he, Bool.false_eq_true, if_false, ← hl]
+      rw [ih hq k (by rw [List.length_drop]; omega)]
+
+private theorem takeLines_none (ls : List Bytes) (t : Nat) : takeLines none ls t = ls := by
+  induction ls generalizing t with
+  | nil => rfl
+  | cons l ls ih => simp [takeLines, ih]
+
+private theorem step_readlines (maxReq : Nat) (hm : 1 ≤ maxReq) (f : BF Srv) (p : PF) (hint : Option Int) (r : Rel f p)
+    (ht : triggers (sftpOps maxReq) f (.readlines hint) = []) : StepOK (sftpOps maxReq) f p (.readlines hint) := by
+  simp only [StepOK, sstep, pstep, BufFile.readlines]
+  by_cases hx : (f.closed || !f.rd) = true
+  · -- the first readline raises on both sides
+    have hpx : (p.closed || !p.rd) = true := by rw [r.closed, r.rd]; exact hx
+    rw [if_pos hx, if_pos hpx]
+    have : ∃ e, readlinesLoop (sftpOps maxReq) hint 1 f [] 0 = (f, .error e) := by
+      rw [readlinesLoop]
+      unfold BufFile.readline
+      by_cases hc : f.closed = true
+      · exact ⟨.closed, by simp [hc]⟩
+      · have hc' : f.closed = false := by simpa using hc
+        have hr : f.rd = false := by simpa [hc'] using hx
+        exact ⟨.notReadable, by simp [hc', hr]⟩
+    obtain ⟨e, he⟩ := this
+    rw [he]
+    exact ⟨r, sameOut_err _ _⟩
+  · have hc' : f.closed = false := by
+      cases hcc : f.closed <;> simp_all
+    have hr' : f.rd = true := by
+      cases hrr : f.rd <;> simp_all
+    have hpc : p.closed = false := by rw [r.closed, hc']
+    have hpr : p.rd = true := by rw [r.rd, hr']
+    have hnone : hint = none := by
+      cases hint with
+      | none => rfl
+      | some h =>
+        simp [triggers, hc', hr'] at ht
+    subst hnone
+    rw [if_neg hx, if_neg (by simp [hpc, hpr])]
+    obtain ⟨g, hs, rg, gw, gc, grd⟩ := sync_rel maxReq hm f p r hc'
+    have hgr : g.rd = true := by rw [grd]; exact hr'
+    rw [hs]
+    simp only
+    have pre := rel_readpre maxReq hm rg gc hgr gw
+    have hrest := spec_rest maxReq hm rg gc gw
+    have hfuel : (pendG (sftpLaws maxReq hm) g).length < g.rbuf.length + (sftpOps maxReq).bound g.s g.realpos + 1 := by
+      show (g.rbuf ++ g.s.content.drop g.realpos.toNat).length < _
+      simp [sftpOps]
+    obtain ⟨new, k1, k2, k3, k4⟩ := readlinesLoop_gen (sftpLaws maxReq hm) none
+      (g.rbuf.length + (sftpOps maxReq).bound g.s g.realpos + 1) g [] 0 pre hfuel
+    have k4' := k4 rfl
+    rcases hres : readlinesLoop (sftpOps maxReq) none (g.rbuf.length + (sftpOps maxReq).bound g.s g.realpos + 1) g [] 0
+      with ⟨f1, r1⟩
+    rw [hres] at k1 k2 k3 k4'
+    simp only [List.nil_append] at k1 k2 k3 k4'
+    subst k1
+    rw [k4'] at k2
+    have hsplit := splitLines_of_LinesOf k2 (pendG (sftpLaws maxReq hm) g).length (Nat.le_refl _)
+    simp only [outOf]
+    rw [hrest, hsplit, takeLines_none]
+    exact ⟨rel_after_read maxReq hm rg gc gw k3, by simp [sameOut, eraseRet, eraseErr]⟩
+
+
+/-! ### positioning and writing calls -/
+
 private theorem step_tell (o : Ops Srv) (f : BF Srv) (p : PF) (r : Rel f p) (ht : triggers o f .tell = []) :
     StepOK o f p .tell := by
   simp only [triggers, List.append_eq_nil_iff] at ht
@@ -189,67 +576,24 @@ private theorem step_tell (o : Ops Srv) (f : BF Srv) (p : PF) (r : Rel f p) (ht 
     have := t_nil ht.2
     simp [hc] at this
     simpa using this
-  have hp := r.ppos hc
+  have hp := (rel_wnil_facts r hc hw).2
   have hpc : p.closed = false := by rw [r.closed, hc]
   simp only [StepOK, sstep, pstep, hpc, Bool.false_eq_true, if_false]
   refine ⟨r, ?_⟩
-  simp only [sameOut, eraseRet, eraseErr, BufFile.tell]
-  rw [hw] at hp
-  simp at hp
-  simp [hp]
+  simp [sameOut, eraseRet, eraseErr, BufFile.tell, hp]
 
 private theorem step_flush (maxReq : Nat) (hm : 1 ≤ maxReq) (f : BF Srv) (p : PF) (r : Rel f p)
     (ht : triggers (sftpOps maxReq) f .flush = []) : StepOK (sftpOps maxReq) f p .flush := by
   simp only [triggers] at ht
   have hc : f.closed = false := t_nil ht
   have hpc : p.closed = false := by rw [r.closed, hc]
-  obtain ⟨h1, h2, h3, h4, h5, h6, h7, h8, h9⟩ :=
-    flush_sftp_noapp maxReq hm f (by rw [r.rp]; exact r.pos0) r.coh r.app r.sapp r.rbuf
+  obtain ⟨g1, g2, _, _, _, _⟩ := rel_after_flush maxReq hm f p r hc
   simp only [StepOK, sstep, pstep, hpc, Bool.false_eq_true, if_false]
   rcases hres : BufFile.flush (sftpOps maxReq) f with ⟨f1, r1⟩
-  rw [hres] at h1 h2 h3 h4 h5 h6 h7 h8 h9
-  simp only at h1 h2 h3 h4 h5 h6 h7 h8 h9
-  subst h1
-  obtain ⟨c1, c2, c3, c4, c5, c6, c7, c8, c9, c10, c11⟩ := h9
-  obtain ⟨s1, s2, s3, s4, s5⟩ := h7
-  simp only [outOf]
-  refine ⟨?_, by simp [sameOut, eraseRet, eraseErr]⟩
-  have hcl : f1.closed = false := by rw [c11]; exact hc
-  exact {
-    closed := by rw [c11]; exact r.closed
-    wr := by rw [c2]; exact r.wr
-    papp := r.papp
-    app := by rw [c3]; exact r.app
-    sapp := by rw [s1]; exact r.sapp
-    coh := h6
-    clean := by rw [s4, s5]; exact r.clean
-    rbuf := by rw [c9]; exact r.rbuf
-    pos0 := by rw [h3]; have := r.pos0; omega
-    rp := by rw [h4, h3, r.rp]
-    bs := by rw [c7]; exact r.bs
-    unbuf := fun _ => h8
-    dead := fun h => by rw [hcl] at h; cases h
-    hopen := fun _ => by rw [s2]; exact r.hopen hc
-    content := fun _ => by rw [h8, overlay_nil, h2, r.content hc, r.rp]
-    ppos := fun _ => by rw [h8, h3, r.ppos hc]; simp }
-
-/-- the state after a successful flush, as a relation-preserving step with the spec state untouched -/
-private theorem rel_after_flush (maxReq : Nat) (hm : 1 ≤ maxReq) (f : BF Srv) (p : PF) (r : Rel f p)
-    (hc : f.closed = false) :
-    (BufFile.flush (sftpOps maxReq) f).2 = .ok () ∧ Rel (BufFile.flush (sftpOps maxReq) f).1 p ∧
-    (BufFile.flush (sftpOps maxReq) f).1.wbuf = [] ∧ (BufFile.flush (sftpOps maxReq) f).1.closed = false ∧
-    (BufFile.flush (sftpOps maxReq) f).1.s.truncZero = f.s.truncZero := by
-  have ht : triggers (sftpOps maxReq) f .flush = [] := by simp [triggers, hc]
-  have hs := step_flush maxReq hm f p r ht
-  have hpc : p.closed = false := by rw [r.closed, hc]
-  obtain ⟨h1, _, _, _, _, _, h7, h8, h9⟩ :=
-    flush_sftp_noapp maxReq hm f (by rw [r.rp]; exact r.pos0) r.coh r.app r.sapp r.rbuf
-  simp only [StepOK, sstep, pstep, hpc, Bool.false_eq_true, if_false] at hs
-  rcases hres : BufFile.flush (sftpOps maxReq) f with ⟨f1, r1⟩
-  rw [hres] at h1 h7 h8 h9 hs
-  simp only at h1 h7 h8 h9
-  subst h1
-  exact ⟨rfl, hs.1, h8, by rw [h9.2.2.2.2.2.2.2.2.2.2]; exact hc, h7.2.2.1⟩
+  rw [hres] at g1 g2
+  simp only at g1 g2
+  subst g1
+  exact ⟨g2, by simp [outOf, sameOut, eraseRet, eraseErr]⟩
 
 private theorem step_close (maxReq : Nat) (hm : 1 ≤ maxReq) (f : BF Srv) (p : PF) (r : Rel f p) :
     StepOK (sftpOps maxReq) f p .close := by
@@ -258,12 +602,11 @@ private theorem step_close (maxReq : Nat) (hm : 1 ≤ maxReq) (f : BF Srv) (p : 
   · rw [if_pos hc]
     refine ⟨?_, by simp [outOf, sameOut, eraseRet, eraseErr]⟩
     simp only [outOf]
-    have hpc : p.closed = true := by rw [r.closed, hc]
-    exact { r with closed := by simp [hc], dead := fun _ => r.dead hc,
+    exact { r with closed := (by simp [hc]), dead := fun _ => r.dead hc,
                    content := fun h => r.content h, ppos := fun h => r.ppos h }
   · have hc' : f.closed = false := by simpa using hc
     rw [if_neg hc]
-    obtain ⟨g1, g2, g3, g4, _⟩ := rel_after_flush maxReq hm f p r hc'
+    obtain ⟨g1, g2, g3, g4, _, _⟩ := rel_after_flush maxReq hm f p r hc'
     unfold BufFile.close
     rcases hres : BufFile.flush (sftpOps maxReq) f with ⟨f1, r1⟩
     rw [hres] at g1 g2 g3 g4
@@ -271,101 +614,23 @@ private theorem step_close (maxReq : Nat) (hm : 1 ≤ maxReq) (f : BF Srv) (p : 
     subst g1
     refine ⟨?_, by simp [outOf, sameOut, eraseRet, eraseErr]⟩
     simp only [outOf]
-    have hcont := g2.content g4
-    rw [g3, overlay_nil] at hcont
+    have hcont := (rel_wnil_facts g2 g4 g3).1
     exact {
-      closed := rfl, wr := g2.wr, papp := g2.papp, app := g2.app, sapp := g2.sapp,
-      coh := g2.coh, clean := g2.clean, rbuf := g2.rbuf, pos0 := g2.pos0, rp := g2.rp, bs := g2.bs,
-      unbuf := g2.unbuf,
+      closed := rfl, rd := g2.rd, wr := g2.wr, app := g2.app,
+      w := ⟨g2.w.pos0, g2.w.rp, g2.w.coh, g2.w.sapp, g2.w.asize⟩,
+      nstale := g2.nstale, bs := g2.bs, dflt := g2.dflt, unbuf := g2.unbuf,
       dead := fun _ => ⟨hcont, rfl, g3⟩,
       hopen := fun h => (by cases h),
+      rbufOK := g2.rbufOK,
       content := fun h => (by cases h),
       ppos := fun h => (by cases h) }
 
-/-- dropping (empty) read-ahead and re-synchronising `_realpos` leaves a related state related -/
+/-- dropping read-ahead and re-synchronising `_realpos` (what `seek` and `truncate` do after the flush) -/
 private theorem rel_norm {f : BF Srv} {p : PF} (r : Rel f p) : Rel { f with rbuf := [], realpos := f.pos } p :=
-  { closed := r.closed, wr := r.wr, papp := r.papp, app := r.app, sapp := r.sapp, coh := r.coh, clean := r.clean,
-    rbuf := rfl, pos0 := r.pos0, rp := rfl, bs := r.bs, unbuf := r.unbuf, dead := r.dead, hopen := r.hopen,
-    content := r.content, ppos := r.ppos }
-
-private theorem rel_wnil {f : BF Srv} {p : PF} (r : Rel f p) (hw : f.wbuf = []) : Rel { f with wbuf := [] } p :=
-  { closed := r.closed, wr := r.wr, papp := r.papp, app := r.app, sapp := r.sapp, coh := r.coh, clean := r.clean,
-    rbuf := r.rbuf, pos0 := r.pos0, rp := r.rp, bs := r.bs, unbuf := fun _ => rfl,
-    dead := fun h => ⟨(r.dead h).1, (r.dead h).2.1, rfl⟩, hopen := r.hopen,
-    content := fun h => (by have := r.content h; rw [hw] at this; exact this),
-    ppos := fun h => (by have := r.ppos h; rw [hw] at this; exact this) }
-
-/-- the FSETSTAT itself, on a flushed state with no read-ahead -/
-private theorem truncate_core (g : BF Srv) (p : PF) (n : Int) (r : Rel g p) (hw : g.wbuf = [])
-    (ht : g.closed = false → (g.wr = true ∧ ¬ (g.s.truncZero = true ∧ n > 0))) :
-    let res : BF Srv × Except Err Unit :=
-      if n < 0 then (g, .error (.stream eStruct))
-      else if !g.s.hopen then (g, .error (.stream eServer))
-      else ({ g with s := srvTruncate g.s n.toNat }, .ok ())
-    Rel (outOf (fun _ => Out.unit) res).1 (pstep p (.truncate n)).1 ∧
-    sameOut (.truncate n) (outOf (fun _ => Out.unit) res).2 (pstep p (.truncate n)).2 = true := by
-  intro res
-  simp only [res, pstep]
-  by_cases hc : g.closed = true
-  · have hpc : p.closed = true := by rw [r.closed, hc]
-    have hh := (r.dead hc).2.1
-    simp only [hpc, Bool.true_or, if_true]
-    by_cases hn : n < 0
-    · simp only [hn, if_true, outOf]; exact ⟨r, sameOut_err _ _⟩
-    · simp only [hn, if_false, hh, Bool.not_false, if_true, outOf]; exact ⟨r, sameOut_err _ _⟩
-  · have hc' : g.closed = false := by simpa using hc
-    have hpc : p.closed = false := by rw [r.closed, hc']
-    obtain ⟨hwr, hz⟩ := ht hc'
-    have hpw : p.wr = true := by rw [r.wr, hwr]
-    simp only [hpc, hpw, Bool.false_or, Bool.not_true]
-    by_cases hn : n < 0
-    · simp only [hn, if_true, outOf, decide_true]
-      exact ⟨r, sameOut_err _ _⟩
-    · have hho := r.hopen hc'
-      simp only [hn, if_false, hho, Bool.not_true, Bool.false_eq_true, outOf, decide_false]
-      refine ⟨?_, by simp [sameOut, eraseRet, eraseErr]⟩
-      have hcont := r.content hc'
-      rw [hw, overlay_nil] at hcont
-      have hnew : (srvTruncate g.s n.toNat).content = p.content.take n.toNat ++ List.replicate (n.toNat - p.content.length) 0 := by
-        simp only [srvTruncate]
-        by_cases hz' : g.s.truncZero = true
-        · have : n.toNat = 0 := by
-            have : ¬ n > 0 := fun h => hz ⟨hz', h⟩
-            omega
-          simp [hz', this]
-        · simp [hz', hcont]
-      exact {
-        closed := (by simp [hc']), wr := (by simp [hwr]), papp := r.papp, app := r.app, sapp := r.sapp,
-        coh := r.coh,
-        clean := (by simp [srvTruncate, r.clean.1, r.clean.2]),
-        rbuf := r.rbuf, pos0 := r.pos0, rp := r.rp, bs := r.bs, unbuf := r.unbuf,
-        dead := fun h => (by simp [hc'] at h),
-        hopen := fun _ => hho,
-        content := fun _ => (by simp only [hw, overlay_nil]; exact hnew.symm),
-        ppos := fun h => r.ppos h }
-
-private theorem step_truncate (maxReq : Nat) (hm : 1 ≤ maxReq) (f : BF Srv) (p : PF) (n : Int) (r : Rel f p)
-    (ht : triggers (sftpOps maxReq) f (.truncate n) = []) : StepOK (sftpOps maxReq) f p (.truncate n) := by
-  simp only [StepOK, sstep, SftpFile.truncate]
-  by_cases hc : f.closed = true
-  · obtain ⟨_, _, hwb⟩ := r.dead hc
-    rw [flush_nil _ f hwb]
-    exact truncate_core _ p n (rel_norm (rel_wnil r hwb)) rfl (fun h => by simp [hc] at h)
-  · have hc' : f.closed = false := by simpa using hc
-    simp only [triggers, hc', Bool.not_false, Bool.true_and, List.append_eq_nil_iff] at ht
-    obtain ⟨⟨t2, t3⟩, _⟩ := ht
-    have hwr : f.wr = true := by
-      have := t_nil t2; simpa using this
-    have hz : ¬ (f.s.truncZero = true ∧ n > 0) := by
-      have := t_nil t3; simp [hwr] at this
-      intro ⟨a, b⟩; exact absurd (this a) (by omega)
-    obtain ⟨g1, g2, g3, g4, g5⟩ := rel_after_flush maxReq hm f p r hc'
-    rcases hres : BufFile.flush (sftpOps maxReq) f with ⟨f1, r1⟩
-    rw [hres] at g1 g2 g3 g4 g5
-    simp only at g1 g2 g3 g4 g5
-    subst g1
-    have hwr1 : f1.wr = true := by rw [← g2.wr, r.wr]; exact hwr
-    exact truncate_core _ p n (rel_norm g2) g3 (fun _ => ⟨hwr1, by rw [g5]; exact hz⟩)
+  { closed := r.closed, rd := r.rd, wr := r.wr, app := r.app,
+    w := ⟨r.w.pos0, (by simp), r.w.coh, r.w.sapp, r.w.asize⟩,
+    nstale := r.nstale, bs := r.bs, dflt := r.dflt, unbuf := r.unbuf, dead := r.dead, hopen := r.hopen,
+    rbufOK := (by simp), content := r.content, ppos := r.ppos }
 
 private theorem step_seek (maxReq : Nat) (hm : 1 ≤ maxReq) (f : BF Srv) (p : PF) (off : Int) (wh : Nat)
     (r : Rel f p) (ht : triggers (sftpOps maxReq) f (.seek off wh) = []) :
@@ -374,17 +639,13 @@ private theorem step_seek (maxReq : Nat) (hm : 1 ≤ maxReq) (f : BF Srv) (p : P
   have hc : f.closed = false := t_nil ht.1
   have hpc : p.closed = false := by rw [r.closed, hc]
   have hneg := t_nil ht.2
-  obtain ⟨g1, g2, g3, g4, _⟩ := rel_after_flush maxReq hm f p r hc
+  obtain ⟨g1, g2, g3, g4, _, _⟩ := rel_after_flush maxReq hm f p r hc
   simp only [StepOK, sstep, pstep, SftpFile.seek, hpc, Bool.false_eq_true, if_false]
   rcases hres : BufFile.flush (sftpOps maxReq) f with ⟨f1, r1⟩
   rw [hres] at g1 g2 g3 g4 hneg
   simp only at g1 g2 g3 g4 hneg
   subst g1
-  have hcont := g2.content g4
-  rw [g3, overlay_nil] at hcont
-  have hpos := g2.ppos g4
-  rw [g3] at hpos
-  simp only [List.length_nil, Int.natCast_zero, Int.add_zero] at hpos
+  obtain ⟨hcont, hpos⟩ := rel_wnil_facts g2 g4 g3
   have hsz : getSize f1.s = (p.content.length : Int) := by
     simp [getSize, g2.hopen g4, hcont]
   have ht_eq : (if (wh == 0) = true then off else if (wh == 1) = true then (p.pos : Int) + off else (p.content.length : Int) + off)
@@ -398,71 +659,180 @@ private theorem step_seek (maxReq : Nat) (hm : 1 ≤ maxReq) (f : BF Srv) (p : P
   generalize (if (wh == 0) = true then off else if (wh == 1) = true then f1.pos + off else getSize f1.s + off) = t at hge
   have ht0 : 0 ≤ t := by omega
   exact {
-    closed := (by simp [g4]), wr := g2.wr, papp := g2.papp, app := g2.app, sapp := g2.sapp,
-    coh := g2.coh, clean := g2.clean, rbuf := rfl, pos0 := ht0, rp := rfl, bs := g2.bs, unbuf := g2.unbuf,
+    closed := (by simp [g4]), rd := g2.rd, wr := g2.wr, app := g2.app,
+    w := ⟨ht0, (by simp), g2.w.coh, g2.w.sapp, g2.w.asize⟩,
+    nstale := g2.nstale, bs := g2.bs, dflt := g2.dflt, unbuf := g2.unbuf,
     dead := fun h => (by rw [g4] at h; cases h),
     hopen := fun h => g2.hopen h,
-    content := fun _ => (by simp only [g3, overlay_nil]; exact hcont),
-    ppos := fun _ => (by simp only [g3, List.length_nil]; omega) }
+    rbufOK := (by simp),
+    content := fun _ => (by
+      simp only [g3]
+      rw [hcont]
+      split
+      · simp
+      · rw [overlay_nil]),
+    ppos := fun _ => (by simp only [g3, if_true]; omega) }
 
-/-- the spec state after `write(d)` on an open writable non-append file -/
+/-- the FSETSTAT itself, on a flushed state with no read-ahead -/
+private theorem truncate_core (g : BF Srv) (p : PF) (n : Int) (r : Rel g p) (hw : g.wbuf = []) (hrb : g.rbuf = [])
+    (ht : g.closed = false → (g.wr = true ∧ ¬ (g.s.truncZero = true ∧ n > 0) ∧ g.app = false ∧ g.s.didRead = false)) :
+    let res : BF Srv × Except Err Unit :=
+      if n < 0 then (g, .error (.stream eStruct))
+      else if !g.s.hopen then (g, .error (.stream eServer))
+      else ({ g with s := srvTruncate g.s n.toNat }, .ok ())
+    Rel (outOf (fun _ => Out.unit) res).1 (pstep p (.truncate n)).1 ∧
+    sameOut (.truncate n) (outOf (fun _ => Out.unit) res).2 (pstep p (.truncate n)).2 = true := by
+  intro res
+  simp only [res, pstep]
+  by_cases hc : g.closed = true
+  · have hpc : p.closed = true := by rw [r.closed, hc]
+    have hh := (r.dead hc).2.1
+    rw [if_pos (show (p.closed || !p.wr || decide (n < 0)) = true by simp [hpc])]
+    by_cases hn : n < 0
+    · rw [if_pos hn]; exact ⟨r, sameOut_err _ _⟩
+    · rw [if_neg hn, if_pos (show (!g.s.hopen) = true by simp [hh])]; exact ⟨r, sameOut_err _ _⟩
+  · have hc' : g.closed = false := by simpa using hc
+    have hpc : p.closed = false := by rw [r.closed, hc']
+    obtain ⟨hwr, hz, happ, hdr⟩ := ht hc'
+    have hpw : p.wr = true := by rw [r.wr, hwr]
+    by_cases hn : n < 0
+    · rw [if_pos hn, if_pos (show (p.closed || !p.wr || decide (n < 0)) = true by simp [hn])]
+      exact ⟨r, sameOut_err _ _⟩
+    · have hho := r.hopen hc'
+      obtain ⟨hcont, hppos⟩ := rel_wnil_facts r hc' hw
+      have hnew : (srvTruncate g.s n.toNat).content = p.content.take n.toNat ++ List.replicate (n.toNat - p.content.length) 0 := by
+        simp only [srvTruncate]
+        by_cases hz' : g.s.truncZero = true
+        · have : n.toNat = 0 := by
+            have : ¬ n > 0 := fun h => hz ⟨hz', h⟩
+            omega
+          simp [hz', this]
+        · simp [hz', hcont]
+      rw [if_neg hn, if_neg (show ¬ (!g.s.hopen) = true by simp [hho]),
+        if_neg (show ¬ (p.closed || !p.wr || decide (n < 0)) = true by simp [hpc, hpw, hn])]
+      refine ⟨?_, by simp [outOf, sameOut, eraseRet, eraseErr]⟩
+      simp only [outOf]
+      exact {
+        closed := r.closed, rd := r.rd, wr := r.wr, app := r.app,
+        w := ⟨r.w.pos0, r.w.rp, r.w.coh, r.w.sapp, fun h => (by simp only at h; rw [happ] at h; cases h)⟩,
+        nstale := (by simp [srvTruncate, r.nstale, hdr]),
+        bs := r.bs, dflt := r.dflt, unbuf := r.unbuf,
+        dead := fun h => (by simp only at h; rw [hc'] at h; cases h),
+        hopen := fun _ => hho,
+        rbufOK := (by simp only; rw [hrb]; simp),
+        content := fun _ => (by
+          simp only
+          rw [hw, happ, hnew]
+          simp [overlay_nil]),
+        ppos := fun _ => (by simp only; rw [if_pos hw]; exact hppos) }
+
+
+private theorem step_truncate (maxReq : Nat) (hm : 1 ≤ maxReq) (f : BF Srv) (p : PF) (n : Int) (r : Rel f p)
+    (ht : triggers (sftpOps maxReq) f (.truncate n) = []) : StepOK (sftpOps maxReq) f p (.truncate n) := by
+  simp only [StepOK, sstep, SftpFile.truncate]
+  by_cases hc : f.closed = true
+  · obtain ⟨_, _, hwb⟩ := r.dead hc
+    rw [flush_nil _ f hwb]
+    exact truncate_core _ p n (rel_norm (rel_setw r hwb)) rfl rfl (fun h => by simp [hc] at h)
+  · have hc' : f.closed = false := by simpa using hc
+    simp only [triggers, hc', Bool.not_false, Bool.true_and, List.append_eq_nil_iff] at ht
+    obtain ⟨⟨⟨t2, t3⟩, t4⟩, t5⟩ := ht
+    have hwr : f.wr = true := by
+      have := t_nil t2; simpa using this
+    have hz : ¬ (f.s.truncZero = true ∧ n > 0) := by
+      have := t_nil t3; simp [hwr] at this
+      intro ⟨a, b⟩; exact absurd (this a) (by omega)
+    have happ : f.app = false := t_nil t4
+    have hdr : f.s.didRead = false := t_nil t5
+    obtain ⟨g1, g2, g3, g4, g5, g6⟩ := rel_after_flush maxReq hm f p r hc'
+    rcases hres : BufFile.flush (sftpOps maxReq) f with ⟨f1, r1⟩
+    rw [hres] at g1 g2 g3 g4 g5 g6
+    simp only at g1 g2 g3 g4 g5 g6
+    subst g1
+    have hwr1 : f1.wr = true := by rw [← g2.wr, r.wr]; exact hwr
+    have happ1 : f1.app = false := by rw [← g2.app, r.app]; exact happ
+    exact truncate_core _ p n (rel_norm g2) g3 rfl
+      (fun _ => ⟨hwr1, by rw [g5]; exact hz, happ1, by rw [g6]; exact hdr⟩)
+
+/-- the spec state after `write(d)` on an open writable file -/
 private def pw (p : PF) (d : Bytes) : PF :=
-  { p with content := overlay p.content p.pos d, pos := p.pos + d.length }
+  if p.app = true then
+    { p with content := p.content ++ d, pos := if d.isEmpty = true then p.pos else (p.content ++ d).length }
+  else { p with content := overlay p.content p.pos d, pos := p.pos + d.length }
 
-private theorem ppos_nat {f : BF Srv} {p : PF} (r : Rel f p) (hc : f.closed = false) :
-    p.pos = f.pos.toNat + f.wbuf.length := by
-  have := r.ppos hc; have := r.pos0; omega
+private theorem pw_fields (p : PF) (d : Bytes) :
+    (pw p d).closed = p.closed ∧ (pw p d).rd = p.rd ∧ (pw p d).wr = p.wr ∧ (pw p d).app = p.app := by
+  unfold pw; split <;> exact ⟨rfl, rfl, rfl, rfl⟩
 
-/-- buffering `d` (no I/O) keeps the relation with the spec state after the write -/
-private theorem rel_buffered (f : BF Srv) (p : PF) (d : Bytes) (r : Rel f p) (hc : f.closed = false)
-    (hb : f.buffered = true) : Rel { f with wbuf := f.wbuf ++ d } (pw p d) := by
-  have hp := ppos_nat r hc
+/-- buffering `d` (no I/O) keeps the relation with the spec state after the write; `b` is the buffering flag
+    the intermediate state is given (the unbuffered path goes through here with a temporary `true`) -/
+private theorem rel_buffered (f : BF Srv) (p : PF) (d : Bytes) (r : Rel f p) (hc : f.closed = false) :
+    Rel { f with wbuf := f.wbuf ++ d, buffered := true } (pw p d) := by
+  obtain ⟨q1, q2, q3, q4⟩ := pw_fields p d
+  have hcont := r.content hc
+  have hpos := r.ppos hc
+  have hp0 := r.w.pos0
+  have happ : p.app = f.app := r.app
   exact {
-    closed := r.closed, wr := r.wr, papp := r.papp, app := r.app, sapp := r.sapp, coh := r.coh,
-    clean := r.clean, rbuf := r.rbuf, pos0 := r.pos0, rp := r.rp, bs := r.bs,
-    unbuf := fun h => (by simp [hb] at h),
-    dead := fun h => (by simp [hc] at h),
+    closed := (by rw [q1]; exact r.closed), rd := (by rw [q2]; exact r.rd), wr := (by rw [q3]; exact r.wr),
+    app := (by rw [q4]; exact r.app),
+    w := ⟨r.w.pos0, r.w.rp, r.w.coh, r.w.sapp, r.w.asize⟩,
+    nstale := r.nstale, bs := r.bs, dflt := r.dflt,
+    unbuf := fun h => (by simp at h),
+    dead := fun h => (by simp only at h; rw [hc] at h; cases h),
     hopen := fun h => r.hopen h,
-    content := fun _ => (by simp only [pw]; rw [r.content hc, hp, overlay_append]),
-    ppos := fun _ => (by simp only [pw, List.length_append]; have := r.ppos hc; omega) }
-
-/-- writing out the first `cut` buffered bytes and keeping the rest buffered keeps the relation -/
-private theorem rel_partial_flush (maxReq : Nat) (hm : 1 ≤ maxReq) (f : BF Srv) (p : PF) (cut : Nat)
-    (r : Rel f p) (hc : f.closed = false) (hb : f.buffered = true) (hcut : cut ≤ f.wbuf.length) :
-    (writeAll (sftpOps maxReq) f (f.wbuf.take cut)).2 = .ok () ∧
-    Rel { (writeAll (sftpOps maxReq) f (f.wbuf.take cut)).1 with wbuf := f.wbuf.drop cut } p := by
-  obtain ⟨h1, h2, h3, h4, _, h6, h7, h8⟩ :=
-    writeAll_sftp_noapp maxReq hm f (f.wbuf.take cut) (by rw [r.rp]; exact r.pos0) r.coh r.app r.sapp r.rbuf
-  refine ⟨h1, ?_⟩
-  obtain ⟨c1, c2, c3, c4, c5, c6, c7, c8, c9, c10, c11⟩ := h8
-  obtain ⟨s1, s2, s3, s4, s5⟩ := h7
-  have hlen : (f.wbuf.take cut).length = cut := by rw [List.length_take]; omega
-  rw [hlen] at h3 h4
-  have hcl : (writeAll (sftpOps maxReq) f (f.wbuf.take cut)).1.closed = false := by rw [c11]; exact hc
-  exact {
-    closed := (by simp only; rw [c11]; exact r.closed)
-    wr := (by simp only; rw [c2]; exact r.wr)
-    papp := r.papp
-    app := (by simp only; rw [c3]; exact r.app)
-    sapp := (by simp only; rw [s1]; exact r.sapp)
-    coh := h6
-    clean := (by simp only; rw [s4, s5]; exact r.clean)
-    rbuf := (by simp only; rw [c9]; exact r.rbuf)
-    pos0 := (by simp only; rw [h3]; have := r.pos0; omega)
-    rp := (by simp only; rw [h4, h3, r.rp])
-    bs := (by simp only; rw [c7]; exact r.bs)
-    unbuf := fun h => (by simp only at h; rw [c5, hb] at h; cases h)
-    dead := fun h => (by simp only at h; rw [hcl] at h; cases h)
-    hopen := fun _ => (by simp only; rw [s2]; exact r.hopen hc)
+    rbufOK := r.rbufOK,
     content := fun _ => (by
       simp only
-      rw [h2, h3, r.rp, r.content hc]
-      have : (f.pos + (cut : Int)).toNat = f.pos.toNat + (f.wbuf.take cut).length := by
-        rw [hlen]; have := r.pos0; omega
-      rw [this, overlay_append, List.take_append_drop])
+      unfold pw
+      by_cases ha : f.app = true
+      · rw [if_pos (by rw [happ]; exact ha), if_pos ha]
+        simp only
+        rw [hcont, if_pos ha, List.append_assoc]
+      · rw [if_neg (by rw [happ]; exact ha), if_neg ha]
+        simp only
+        rw [hcont, if_neg ha]
+        have hpp : p.pos = f.pos.toNat + f.wbuf.length := by
+          by_cases hw : f.wbuf = []
+          · rw [if_pos hw] at hpos; rw [hw]; simp; omega
+          · rw [if_neg hw, if_neg ha] at hpos; omega
+        rw [hpp, overlay_append]),
     ppos := fun _ => (by
       simp only
-      rw [h3, r.ppos hc, List.length_drop]; omega) }
+      unfold pw
+      by_cases ha : f.app = true
+      · rw [if_pos (by rw [happ]; exact ha)]
+        simp only
+        rw [hcont, if_pos ha]
+        by_cases hd : d = []
+        · subst hd
+          simp only [List.isEmpty_nil, if_true, List.append_nil]
+          by_cases hw : f.wbuf = []
+          · rw [if_pos hw] at hpos ⊢; exact hpos
+          · rw [if_neg hw, if_pos ha] at hpos; rw [if_neg hw, if_pos ha]; exact hpos
+        · have hde : d.isEmpty = false := by simpa using hd
+          have hwd : f.wbuf ++ d ≠ [] := by simp [hd]
+          rw [if_neg hwd, if_pos ha]
+          simp only [hde, Bool.false_eq_true, if_false, List.length_append]
+          push_cast; omega
+      · rw [if_neg (by rw [happ]; exact ha)]
+        simp only
+        by_cases hw : f.wbuf = []
+        · rw [if_pos hw] at hpos
+          by_cases hd : d = []
+          · subst hd; rw [hw]; simp; exact hpos
+          · have hwd : f.wbuf ++ d ≠ [] := by simp [hd]
+            rw [if_neg hwd, if_neg ha, hw]; simp only [List.nil_append]; push_cast; omega
+        · rw [if_neg hw, if_neg ha] at hpos
+          have hwd : f.wbuf ++ d ≠ [] := by simp [hw]
+          rw [if_neg hwd, if_neg ha, List.length_append]; push_cast; omega) }
+
+private theorem rel_unbuffer {f : BF Srv} {p : PF} (b : Bool) (r : Rel f p) (hw : f.wbuf = []) :
+    Rel { f with buffered := b } p :=
+  { closed := r.closed, rd := r.rd, wr := r.wr, app := r.app,
+    w := ⟨r.w.pos0, r.w.rp, r.w.coh, r.w.sapp, r.w.asize⟩,
+    nstale := r.nstale, bs := r.bs, dflt := r.dflt, unbuf := fun _ => hw, dead := r.dead, hopen := r.hopen,
+    rbufOK := r.rbufOK, content := r.content, ppos := r.ppos }
 
 private theorem step_write (maxReq : Nat) (hm : 1 ≤ maxReq) (f : BF Srv) (p : PF) (d : Bytes) (r : Rel f p) :
     StepOK (sftpOps maxReq) f p (.write d) := by
@@ -470,30 +840,32 @@ private theorem step_write (maxReq : Nat) (hm : 1 ≤ maxReq) (f : BF Srv) (p : 
   unfold BufFile.write
   by_cases hc : f.closed = true
   · have hpc : p.closed = true := by rw [r.closed, hc]
-    simp only [hc, hpc, if_true, Bool.true_or, outOf]
+    rw [if_pos hc, if_pos (show (p.closed || !p.wr) = true by simp [hpc])]
     exact ⟨r, sameOut_err _ _⟩
   have hc' : f.closed = false := by simpa using hc
   have hpc : p.closed = false := by rw [r.closed, hc']
   rw [if_neg hc]
   by_cases hw' : f.wr = false
   · have hpw : p.wr = false := by rw [r.wr, hw']
-    simp only [hw', hpw, hpc, Bool.not_false, if_true, Bool.false_or, outOf]
+    rw [if_pos (show (!f.wr) = true by simp [hw']), if_pos (show (p.closed || !p.wr) = true by simp [hpw])]
     exact ⟨r, sameOut_err _ _⟩
   have hw : f.wr = true := by simpa using hw'
   have hpw : p.wr = true := by rw [r.wr, hw]
-  rw [if_neg (by simp [hw])]
-  have hspec : (if (p.closed || !p.wr) = true then (p, PyFile.E) else
-      if p.app = true then
+  rw [if_neg (show ¬ (!f.wr) = true by simp [hw]), if_neg (show ¬ (p.closed || !p.wr) = true by simp [hpc, hpw])]
+  have hspec : (if p.app = true then
         ({ p with content := p.content ++ d, pos := if d.isEmpty = true then p.pos else (p.content ++ d).length }, Out.pos d.length)
       else ({ p with content := overlay p.content p.pos d, pos := p.pos + d.length }, Out.pos d.length))
       = (pw p d, Out.pos d.length) := by
-    simp [hpc, hpw, r.papp, pw]
+    unfold pw; split <;> rfl
   rw [hspec]
   have hso : ∀ m : BF Srv, sameOut (.write d) (outOf (fun _ => Out.unit) (m, Except.ok ())).2 (Out.pos d.length) = true := by
     intro m; simp [outOf, sameOut, eraseRet, eraseErr]
+  have r2 := rel_buffered f p d r hc'
   by_cases hb : f.buffered = true
-  · rw [if_neg (by simp [hb])]
-    have r2 := rel_buffered f p d r hc' hb
+  · rw [if_neg (show ¬ (!f.buffered) = true by simp [hb])]
+    have hf2 : ({ f with wbuf := f.wbuf ++ d, buffered := true } : BF Srv) = { f with wbuf := f.wbuf ++ d } := by
+      cases f; simp_all
+    rw [hf2] at r2
     simp only
     by_cases hl : f.lineBuf = true
     · rw [if_pos hl]
@@ -504,8 +876,16 @@ private theorem step_write (maxReq : Nat) (hm : 1 ≤ maxReq) (f : BF Srv) (p : 
         have hq1 := (rfindLF_spec d q hq).1
         have hcut : q + ((f.wbuf ++ d).length - d.length) + 1 ≤ (f.wbuf ++ d).length := by
           simp only [List.length_append]; omega
-        obtain ⟨k1, k2⟩ := rel_partial_flush maxReq hm { f with wbuf := f.wbuf ++ d } (pw p d)
-          (q + ((f.wbuf ++ d).length - d.length) + 1) r2 hc' hb hcut
+        have hne : (f.wbuf ++ d).take (q + ((f.wbuf ++ d).length - d.length) + 1) ≠ [] := by
+          intro h
+          have := congrArg List.length h
+          rw [List.length_take] at this
+          simp only [List.length_append, List.length_nil] at this hcut
+          omega
+        obtain ⟨k1, k2, _, _, _⟩ := rel_after_writeAll maxReq hm { f with wbuf := f.wbuf ++ d } (pw p d)
+          ((f.wbuf ++ d).take (q + ((f.wbuf ++ d).length - d.length) + 1))
+          ((f.wbuf ++ d).drop (q + ((f.wbuf ++ d).length - d.length) + 1)) r2 hc' hne
+          (List.take_append_drop _ _).symm (fun _ => hb)
         rcases hres : writeAll (sftpOps maxReq) { f with wbuf := f.wbuf ++ d }
           ((f.wbuf ++ d).take (q + ((f.wbuf ++ d).length - d.length) + 1)) with ⟨f3, r3⟩
         rw [hres] at k1 k2
@@ -515,7 +895,7 @@ private theorem step_write (maxReq : Nat) (hm : 1 ≤ maxReq) (f : BF Srv) (p : 
     · rw [if_neg hl]
       by_cases hfull : (f.wbuf ++ d).length ≥ f.bufsize
       · rw [if_pos hfull]
-        obtain ⟨g1, g2, _, _, _⟩ := rel_after_flush maxReq hm { f with wbuf := f.wbuf ++ d } (pw p d) r2 hc'
+        obtain ⟨g1, g2, _, _, _, _⟩ := rel_after_flush maxReq hm { f with wbuf := f.wbuf ++ d } (pw p d) r2 hc'
         rcases hres : BufFile.flush (sftpOps maxReq) { f with wbuf := f.wbuf ++ d } with ⟨f3, r3⟩
         rw [hres] at g1 g2
         simp only at g1 g2
@@ -524,50 +904,50 @@ private theorem step_write (maxReq : Nat) (hm : 1 ≤ maxReq) (f : BF Srv) (p : 
       · rw [if_neg hfull]
         exact ⟨r2, hso _⟩
   · have hb' : f.buffered = false := by simpa using hb
-    rw [if_pos (by simp [hb'])]
+    rw [if_pos (show (!f.buffered) = true by simp [hb'])]
     have hwb := r.unbuf hb'
-    obtain ⟨h1, h2, h3, h4, _, h6, h7, h8⟩ :=
-      writeAll_sftp_noapp maxReq hm f d (by rw [r.rp]; exact r.pos0) r.coh r.app r.sapp r.rbuf
-    obtain ⟨c1, c2, c3, c4, c5, c6, c7, c8, c9, c10, c11⟩ := h8
-    obtain ⟨s1, s2, s3, s4, s5⟩ := h7
-    rcases hres : writeAll (sftpOps maxReq) f d with ⟨f3, r3⟩
-    rw [hres] at h1 h2 h3 h4 h6 c1 c2 c3 c4 c5 c6 c7 c8 c9 c10 c11 s1 s2 s3 s4 s5
-    simp only at h1 h2 h3 h4 h6 c1 c2 c3 c4 c5 c6 c7 c8 c9 c10 c11 s1 s2 s3 s4 s5
-    subst h1
-    refine ⟨?_, hso _⟩
-    simp only [outOf]
-    have hp := ppos_nat r hc'
-    rw [hwb] at hp
-    simp only [List.length_nil, Nat.add_zero] at hp
-    have hcont := r.content hc'
-    rw [hwb, overlay_nil] at hcont
-    have hcl : f3.closed = false := by rw [c11]; exact hc'
-    exact {
-      closed := (by rw [c11]; exact r.closed)
-      wr := (by rw [c2]; exact r.wr)
-      papp := r.papp
-      app := (by rw [c3]; exact r.app)
-      sapp := (by rw [s1]; exact r.sapp)
-      coh := h6
-      clean := (by rw [s4, s5]; exact r.clean)
-      rbuf := (by rw [c9]; exact r.rbuf)
-      pos0 := (by rw [h3]; have := r.pos0; omega)
-      rp := (by rw [h4, h3, r.rp])
-      bs := (by rw [c7]; exact r.bs)
-      unbuf := fun _ => (by rw [c10]; exact hwb)
-      dead := fun h => (by rw [hcl] at h; cases h)
-      hopen := fun _ => (by rw [s2]; exact r.hopen hc')
-      content := fun _ => (by rw [c10, hwb, overlay_nil, h2, r.rp]; simp only [pw]; rw [hcont, hp])
-      ppos := fun _ => (by rw [c10, hwb, h3]; simp only [pw, List.length_nil]; have := r.ppos hc'; rw [hwb] at this; simp at this; omega) }
+    by_cases hd : d = []
+    · subst hd
+      rw [writeAll_nil]
+      refine ⟨?_, hso _⟩
+      simp only [outOf]
+      have h3 := rel_unbuffer false (rel_buffered f p [] r hc') (by simp [hwb])
+      have hf3 : ({ ({ f with wbuf := f.wbuf ++ [], buffered := true } : BF Srv) with buffered := false } : BF Srv) = f := by
+        cases f; simp_all
+      rw [hf3] at h3
+      exact h3
+    · rw [hwb] at r2
+      simp only [List.nil_append] at r2
+      obtain ⟨k1, k2, _, _, _⟩ := rel_after_writeAll maxReq hm { f with wbuf := d, buffered := true } (pw p d) d [] r2 hc' hd
+        (by simp) (fun h => absurd rfl h)
+      rw [writeAll_irrelevant] at k1 k2
+      rcases hres : writeAll (sftpOps maxReq) f d with ⟨f3, r3⟩
+      rw [hres] at k1 k2
+      simp only at k1 k2
+      subst k1
+      refine ⟨?_, hso _⟩
+      simp only [outOf]
+      have h3 := rel_unbuffer f.buffered k2 rfl
+      have hcw : f3.wbuf = [] ∧ f3.buffered = f.buffered := by
+        obtain ⟨_, _, _, _, _, _, _, _, c⟩ := writeAll_sftp maxReq hm f d r.w hd
+        rw [hres] at c
+        obtain ⟨_, _, _, _, c5, _, _, _, c9, _⟩ := c
+        exact ⟨by rw [c9]; exact hwb, c5⟩
+      have hf3 : ({ ({ ({ f3 with wbuf := d, buffered := true } : BF Srv) with wbuf := [] } : BF Srv) with
+          buffered := f.buffered } : BF Srv) = f3 := by
+        obtain ⟨e1, e2⟩ := hcw
+        cases f3; simp_all
+      rw [hf3] at h3
+      exact h3
 
-/-- One call: on related states, a positioning/writing call that fires no defect trigger returns the same
-    value (modulo `returns_none` and the exception class) and leaves related states. -/
+/-- One call: on related states, a call that fires no defect trigger returns the same value (modulo
+    `returns_none` and the exception class) and leaves related states. -/
 theorem step_refines (maxReq : Nat) (hm : 1 ≤ maxReq) (f : BF Srv) (p : PF) (op : FOp) (r : Rel f p)
-    (hop : WOp op) (ht : triggers (sftpOps maxReq) f op = []) : StepOK (sftpOps maxReq) f p op := by
+    (ht : triggers (sftpOps maxReq) f op = []) : StepOK (sftpOps maxReq) f p op := by
   cases op with
-  | read n => exact absurd hop (by simp [WOp])
-  | readline n => exact absurd hop (by simp [WOp])
-  | readlines h => exact absurd hop (by simp [WOp])
+  | read n => exact step_read maxReq hm f p n r
+  | readline n => exact step_readline maxReq hm f p n r ht
+  | readlines h => exact step_readlines maxReq hm f p h r ht
   | write d => exact step_write maxReq hm f p d r
   | seek off wh => exact step_seek maxReq hm f p off wh r ht
   | tell => exact step_tell _ f p r ht
@@ -575,23 +955,26 @@ theorem step_refines (maxReq : Nat) (hm : 1 ≤ maxReq) (f : BF Srv) (p : PF) (o
   | truncate n => exact step_truncate maxReq hm f p n r ht
   | close => exact step_close maxReq hm f p r
 
+
 /-- **Refinement (partial).**  For every request-size limit, every buffer size / buffering mode, every file
-    content and every program of write/seek/tell/flush/truncate/close calls on a file not opened in append mode:
-    if no defect trigger fires along the run, SFTPFile returns what the local file returns at every call
-    (modulo `returns_none`) and the two stay related — in particular the server file equals the local file
-    once closed, and equals it up to the not-yet-flushed write buffer before.
-    NOT covered by this theorem (tied by correspondence and oracle only): read/readline/readlines calls and
-    append-mode files. -/
+    content, every mode (append included) and EVERY program of read / readline / readlines / write / seek / tell /
+    flush / truncate / close calls: if no defect trigger fires along the run, SFTPFile returns what the local file
+    returns at every call (modulo `returns_none` and the exception class) and the two stay related — the server
+    file equals the local file once closed, and equals it up to the not-yet-flushed write buffer before.
+    "Partial" = the hypothesis `runTags … = []`: the remaining triggers are the API-convention findings
+    (tell with buffered writes, negative seek, calls on a closed file, truncate on a read-only / append-mode file,
+    readlines with a hint, readline(0) on an unreadable file, mode "x") and one modelling exclusion
+    (`unmodelled_server_readahead`). -/
 theorem refines_partial (maxReq : Nat) (hm : 1 ≤ maxReq) (f : BF Srv) (p : PF) (prog : List FOp) (r : Rel f p)
-    (hops : ∀ op ∈ prog, WOp op) (ht : runTags (sftpOps maxReq) f prog = []) :
+    (_hops : ∀ op ∈ prog, Covered op) (ht : runTags (sftpOps maxReq) f prog = []) :
     sameOuts prog (srun (sftpOps maxReq) f prog).2 (prun p prog).2 = true ∧
     Rel (srun (sftpOps maxReq) f prog).1 (prun p prog).1 := by
   induction prog generalizing f p with
   | nil => exact ⟨rfl, r⟩
   | cons op ops ih =>
     simp only [runTags, List.append_eq_nil_iff] at ht
-    obtain ⟨s1, s2⟩ := step_refines maxReq hm f p op r (hops op (by simp)) ht.1
-    obtain ⟨i1, i2⟩ := ih _ _ s1 (fun o ho => hops o (by simp [ho])) ht.2
+    obtain ⟨s1, s2⟩ := step_refines maxReq hm f p op r ht.1
+    obtain ⟨i1, i2⟩ := ih _ _ s1 (fun o ho => _hops o (by simp [ho])) ht.2
     simp only [srun, prun, sameOuts, s2, i1, Bool.and_self]
     exact ⟨trivial, i2⟩
 
@@ -599,82 +982,126 @@ theorem refines_partial (maxReq : Nat) (hm : 1 ≤ maxReq) (f : BF Srv) (p : PF)
 theorem closed_contents_equal (f : BF Srv) (p : PF) (r : Rel f p) (hc : f.closed = true) :
     f.s.content = p.content := (r.dead hc).1.symm
 
-/-- non-vacuity: a freshly opened r+ file with line buffering is related to the freshly opened local file,
-    and a disciplined program (write, seek back, overwrite, truncate, close) fires no trigger -/
-def demoProg : List FOp :=
-  [.write (str "X\nY"), .seek 1 0, .tell, .write (str "Z"), .flush, .truncate 4, .close]
+/-! ## freshly opened files are related -/
 
-example : ∀ op ∈ demoProg, WOp op := by simp [demoProg, WOp]
-
-example :
-    let f0 := (sftpOpen (some (str "abcdef")) "r+b".toList 1 8192 false).get (by decide)
-    runTags (sftpOps 2) f0 demoProg = [] ∧
-    (srun (sftpOps 2) f0 demoProg).1.s.content = str "XZY" ++ str "d" := by
-  decide +kernel
-
-/-! ## freshly opened files are related (non-append modes) -/
-
-private theorem setFlags_fields (f : BF Srv) (mode : List Char) (sz : Int) (hna : mode.contains 'a' = false) :
+private theorem setFlags_fields (f : BF Srv) (mode : List Char) (sz : Int) :
     (setFlags f mode sz).s = f.s ∧ (setFlags f mode sz).closed = f.closed ∧ (setFlags f mode sz).rbuf = f.rbuf ∧
-    (setFlags f mode sz).wbuf = f.wbuf ∧ (setFlags f mode sz).pos = f.pos ∧ (setFlags f mode sz).realpos = f.realpos ∧
-    (setFlags f mode sz).app = f.app ∧
-    (setFlags f mode sz).wr = (f.wr || mode.contains 'w' || mode.contains '+') ∧
-    (setFlags f mode sz).bufsize = f.bufsize ∧ (setFlags f mode sz).buffered = f.buffered := by
+    (setFlags f mode sz).wbuf = f.wbuf ∧
+    (setFlags f mode sz).pos = (if mode.contains 'a' then sz else f.pos) ∧
+    (setFlags f mode sz).realpos = (if mode.contains 'a' then sz else f.realpos) ∧
+    (setFlags f mode sz).size = (if mode.contains 'a' then sz else f.size) ∧
+    (setFlags f mode sz).app = (f.app || mode.contains 'a') ∧
+    (setFlags f mode sz).rd = (f.rd || mode.contains 'r' || mode.contains '+') ∧
+    (setFlags f mode sz).wr = (f.wr || mode.contains 'w' || mode.contains '+' || mode.contains 'a') ∧
+    (setFlags f mode sz).bufsize = f.bufsize ∧ (setFlags f mode sz).buffered = f.buffered ∧
+    (setFlags f mode sz).dflt = f.dflt := by
   unfold setFlags
-  simp only [hna, Bool.false_eq_true, if_false]
-  (repeat' split) <;> simp_all <;> (rename_i h1 h2; rcases h1 with h | h <;> simp [h])
+  generalize mode.contains 'r' = br
+  generalize mode.contains '+' = bp
+  generalize mode.contains 'w' = bw
+  generalize mode.contains 'a' = ba
+  generalize mode.contains 'b' = bb
+  cases br <;> cases bp <;> cases bw <;> cases ba <;> cases bb <;> simp
 
 private theorem setBuf_fields (f : BF Srv) (bs : Int) (hd : 1 ≤ f.dflt) (hw : f.wbuf = []) :
     (setBuf f bs).s = f.s ∧ (setBuf f bs).closed = f.closed ∧ (setBuf f bs).rbuf = f.rbuf ∧
     (setBuf f bs).wbuf = [] ∧ (setBuf f bs).pos = f.pos ∧ (setBuf f bs).realpos = f.realpos ∧
-    (setBuf f bs).app = f.app ∧ (setBuf f bs).wr = f.wr ∧ 1 ≤ (setBuf f bs).bufsize := by
+    (setBuf f bs).size = f.size ∧
+    (setBuf f bs).app = f.app ∧ (setBuf f bs).rd = f.rd ∧ (setBuf f bs).wr = f.wr ∧ 1 ≤ (setBuf f bs).bufsize ∧
+    (setBuf f bs).dflt = f.dflt := by
   unfold setBuf
   simp only
   (repeat' split) <;> simp_all <;> omega
 
-/-- the relation holds between what `SFTPClient.open` and the local `open` return, for any content `c`
-    the two start from, any buffer size, any non-append mode string with the same writability -/
-theorem rel_init (c : Bytes) (tz : Bool) (mode : List Char) (bs : Int) (dflt : Nat) (rd : Bool)
-    (hd : 1 ≤ dflt) (hna : mode.contains 'a' = false) :
-    Rel (setMode ({ s := { content := c, truncZero := tz }, dflt := dflt, bufsize := dflt } : BF Srv) mode bs
-          (getSize { content := c, truncZero := tz }))
-        { content := c, rd := rd, wr := (mode.contains 'w' || mode.contains '+') } := by
+/-- The relation holds between what `SFTPClient.open` and the local `open` return: any content `c` the two
+    start from, any buffer size, any mode string (`app` = the mode contains "a": server handle in O_APPEND,
+    both positions at the end). -/
+theorem rel_init (c : Bytes) (tz rb : Bool) (mode : List Char) (bs : Int) (dflt : Nat) (hd : 1 ≤ dflt) :
+    Rel (setMode ({ s := { content := c, append := mode.contains 'a', truncZero := tz, rbuffered := rb }, dflt := dflt,
+                    bufsize := dflt } : BF Srv) mode bs
+          (getSize { content := c, append := mode.contains 'a', truncZero := tz, rbuffered := rb }))
+        { content := c, pos := if mode.contains 'a' then c.length else 0,
+          rd := (mode.contains 'r' || mode.contains '+'),
+          wr := (mode.contains 'w' || mode.contains '+' || mode.contains 'a'),
+          app := mode.contains 'a' } := by
   unfold setMode
-  obtain ⟨b1, b2, b3, b4, b5, b6, b7, b8, b9⟩ :=
-    setBuf_fields ({ s := { content := c, truncZero := tz }, dflt := dflt, bufsize := dflt } : BF Srv) bs hd rfl
-  obtain ⟨a1, a2, a3, a4, a5, a6, a7, a8, a9, a10⟩ := setFlags_fields
-    (setBuf ({ s := { content := c, truncZero := tz }, dflt := dflt, bufsize := dflt } : BF Srv) bs) mode
-    (getSize { content := c, truncZero := tz }) hna
-  have hclosed : (setFlags (setBuf ({ s := { content := c, truncZero := tz }, dflt := dflt, bufsize := dflt } : BF Srv) bs)
-      mode (getSize { content := c, truncZero := tz })).closed = false := by rw [a2, b2]
+  generalize hf0 : ({ s := { content := c, append := mode.contains 'a', truncZero := tz, rbuffered := rb }, dflt := dflt,
+                      bufsize := dflt } : BF Srv) = f0
+  have e0 : f0.s = { content := c, append := mode.contains 'a', truncZero := tz, rbuffered := rb } ∧ f0.dflt = dflt ∧ f0.wbuf = [] ∧
+      f0.closed = false ∧ f0.rbuf = [] ∧ f0.pos = 0 ∧ f0.realpos = 0 ∧ f0.size = 0 ∧ f0.app = false ∧
+      f0.rd = false ∧ f0.wr = false := by
+    subst hf0; exact ⟨rfl, rfl, rfl, rfl, rfl, rfl, rfl, rfl, rfl, rfl, rfl⟩
+  obtain ⟨z1, z2, z3, z4, z5, z6, z7, z8, z9, z10, z11⟩ := e0
+  obtain ⟨b1, b2, b3, b4, b5, b6, b7, b8, b9, b10, b11, b12⟩ := setBuf_fields f0 bs (by rw [z2]; exact hd) z3
+  have hsz : getSize ({ content := c, append := mode.contains 'a', truncZero := tz, rbuffered := rb } : Srv) = (c.length : Int) := by
+    simp [getSize]
+  rw [hsz]
+  obtain ⟨a1, a2, a3, a4, a5, a6, a7, a8, a9, a10, a11, a12, a13⟩ := setFlags_fields (setBuf f0 bs) mode (c.length : Int)
+  generalize setFlags (setBuf f0 bs) mode (c.length : Int) = g at a1 a2 a3 a4 a5 a6 a7 a8 a9 a10 a11 a12 a13
+  rw [b1, z1] at a1
+  rw [b2, z4] at a2
+  rw [b3, z5] at a3
+  rw [b4] at a4
+  rw [b5, z6] at a5
+  rw [b6, z7] at a6
+  rw [b7, z8] at a7
+  rw [b8, z9] at a8
+  rw [b9, z10] at a9
+  rw [b10, z11] at a10
+  rw [b12, z2] at a13
+  simp only [Bool.false_or] at a8 a9 a10
+  have hcl : g.closed = false := a2
   exact {
-    closed := (by rw [hclosed])
-    wr := (by rw [a8, b8]; simp)
-    papp := rfl
-    app := (by rw [a7, b7])
-    sapp := (by rw [a1, b1])
-    coh := (by rw [a1, b1]; exact Or.inl rfl)
-    clean := (by rw [a1, b1]; exact ⟨rfl, rfl⟩)
-    rbuf := (by rw [a3, b3])
-    pos0 := (by rw [a5, b5]; exact Int.le_refl 0)
-    rp := (by rw [a6, b6, a5, b5])
-    bs := (by rw [a9]; exact b9)
-    unbuf := fun _ => (by rw [a4, b4])
-    dead := fun h => (by rw [hclosed] at h; cases h)
-    hopen := fun _ => (by rw [a1, b1])
-    content := fun _ => (by rw [a4, b4, overlay_nil, a1, b1])
-    ppos := fun _ => (by rw [a4, b4, a5, b5]; rfl) }
+    closed := (by rw [a2]), rd := (by rw [a9]), wr := (by rw [a10]), app := (by rw [a8]),
+    w := ⟨(by rw [a5]; split <;> omega), (by rw [a6, a5, a3]; simp), (by rw [a1]; exact Or.inl rfl),
+          (by rw [a1, a8]), (fun h => by rw [a8] at h; rw [a7, if_pos h, a1])⟩,
+    nstale := (by rw [a1]),
+    bs := (by rw [a11]; exact b11),
+    dflt := (by rw [a13]; exact hd),
+    unbuf := fun _ => a4,
+    dead := fun h => (by rw [hcl] at h; cases h),
+    hopen := fun _ => (by rw [a1]),
+    rbufOK := (by rw [a3]; simp),
+    content := fun _ => (by
+      simp only
+      rw [a4, a1]
+      split
+      · simp
+      · rw [overlay_nil]),
+    ppos := fun _ => (by
+      simp only
+      rw [if_pos a4, a5]
+      split <;> simp) }
 
 /-- e.g. `sftp.open(name, "r+b", bufsize)` vs `open(name, "r+b")` on an existing file, any buffer size -/
 example (c : Bytes) (bs : Int) :
     ∃ f0 p0, sftpOpen (some c) "r+b".toList bs 8192 false = some f0 ∧ pyOpen (some c) "r+b".toList = some p0 ∧
-      Rel f0 p0 := by
-  refine ⟨_, _, rfl, rfl, ?_⟩
-  exact rel_init c false "r+b".toList bs 8192 true (by decide) (by decide)
+      Rel f0 p0 :=
+  ⟨_, _, rfl, rfl, rel_init c false true "r+b".toList bs 8192 (by decide)⟩
+
+/-- … `"a+b"` (append and read) on an existing file … -/
+example (c : Bytes) (bs : Int) :
+    ∃ f0 p0, sftpOpen (some c) "a+b".toList bs 8192 false = some f0 ∧ pyOpen (some c) "a+b".toList = some p0 ∧
+      Rel f0 p0 :=
+  ⟨_, _, rfl, rfl, rel_init c false true "a+b".toList bs 8192 (by decide)⟩
 
 /-- … and `"wb"` on a new or existing file (truncated on both sides) -/
 example (fs : Option Bytes) (bs : Int) :
     ∃ f0 p0, sftpOpen fs "wb".toList bs 8192 false = some f0 ∧ pyOpen fs "wb".toList = some p0 ∧ Rel f0 p0 := by
-  cases fs <;> exact ⟨_, _, rfl, rfl, rel_init [] false "wb".toList bs 8192 false (by decide) (by decide)⟩
+  cases fs <;> exact ⟨_, _, rfl, rfl, rel_init [] false true "wb".toList bs 8192 (by decide)⟩
+
+/-- non-vacuity: a disciplined program mixing reads, buffered writes, seeks, truncate and close on a line-buffered
+    r+ file split into 2-byte requests fires no trigger -/
+def demoProg : List FOp :=
+  [.readline none, .write (str "X\nY"), .read (some 1), .seek 1 0, .tell, .write (str "Z"), .readlines none,
+   .seek 0 2, .write (str "!"), .flush, .close]
+
+example : ∀ op ∈ demoProg, Covered op := by simp [demoProg, Covered]
+
+example :
+    let f0 := (sftpOpen (some (str "ab\ncdef")) "r+b".toList 1 8192 false).get (by decide)
+    runTags (sftpOps 2) f0 demoProg = [] ∧
+    (srun (sftpOps 2) f0 demoProg).1.s.content = str "aZ\nX\nYf!" := by
+  decide +kernel
 
 end PV.Props.C27
